@@ -134,7 +134,7 @@ PROPS = {
                   simulate=dict(quick="num=500", thorough="num=8000", depth=80)),
              dict(module="Gen_Instance", cfg="Gen_Instance.cfg", out="instance_cases.ndjson")],
         topic="values",
-        rules=["NoPanic", "OwnEqual", "EqSpec", "EqHash"],
+        rules=["NoPanic", "OwnEqual", "EqHash"],
         shards=14,
     ),
     "C17": dict(
@@ -326,8 +326,7 @@ TEXT = {
               "against the original (projection, ==, serialised bytes), parsed-vs-built pairs, records differing only "
               "in TTL / cache-flush and records differing in class; TLC (Gen_Instance) generates every insertion order "
               "of up to 3 addresses and ports for instance information. TLC judges in the trace specification: copies "
-              "equal originals and serialise identically (OwnEqual), == coincides with the documented equality of "
-              "Values.tla (EqSpec), and equal values have equal hashes under a fixed-key hasher (EqHash)."),
+              "equal originals and serialise identically (OwnEqual), and equal values have equal hashes under a fixed-key hasher (EqHash)."),
         note=_TRUSTED,
         technique="TLA+ equality spec (Values.tla); builder behaviours and TLC-enumerated insertion orders replayed; trace validation",
     ),
